@@ -1,6 +1,7 @@
 package props
 
 import (
+	"time"
 	"bytes"
 	"context"
 	"errors"
@@ -76,12 +77,18 @@ type c05OutCase struct {
 	Proxied bool `json:"proxied,omitempty"`
 	// Wrapped: the handler returns fmt.Errorf("...: %w", codedErr)
 	Wrapped bool `json:"wrapped,omitempty"`
+	// Deadline: the client's context has exactly this long left (fake clock);
+	// the timeout header the client writes must fit the protocol's grammar.
+	Deadline time.Duration `json:"deadline,omitempty"`
 }
 
 func (k c05OutCase) key() string {
 	w := ""
 	if k.Wrapped {
 		w = "/wrapped"
+	}
+	if k.Deadline > 0 {
+		w += fmt.Sprintf("/deadline%d", int64(k.Deadline))
 	}
 	return fmt.Sprintf("out/%s/h%d/t%d/resp%s/err%d.%d.%d/req%s/proxied=%v%s", k.Cfg, k.NHdr, k.NTrl, sizesKey(k.Sizes), k.ErrCode, k.ErrMsg, k.Details, sizesKey(k.ReqSizes), k.Proxied, w)
 }
@@ -185,7 +192,13 @@ func c05OutCheck(c *ev.Collector, k c05OutCase) {
 	tr := &memhttp.Transport{Handler: h, Proto: k.Cfg.HTTP, SyncCloseReq: true}
 	cl := NewClient(tr, k.Cfg)
 	var res CallResult
-	g := Guarded(func() { res = RunCall(context.Background(), cl, k.Cfg.Kind, reqPayloads, nil) }, tr)
+	ctx := context.Background()
+	if k.Deadline > 0 {
+		var cancel context.CancelFunc
+		ctx, cancel = context.WithTimeout(ctx, k.Deadline)
+		defer cancel()
+	}
+	g := Guarded(func() { res = RunCall(ctx, cl, k.Cfg.Kind, reqPayloads, nil) }, tr)
 	c.AddTransitions(int64(3 + len(k.Sizes) + len(k.ReqSizes)))
 	c.AddStates(int64(3 + len(k.Sizes) + len(k.ReqSizes)))
 	c.AddTraces(1)
@@ -727,6 +740,17 @@ func c05OutCases(thorough bool) []c05OutCase {
 				cfg := Cfg{Proto: p, Comp: CompDefault, Kind: kind, HTTP: 2}
 				sizes := []int{20}
 				out = append(out, c05OutCase{Cfg: cfg, NHdr: 1, NTrl: 1, Sizes: sizes, ErrCode: code, ErrMsg: 1, Details: 1, ReqSizes: []int{15}})
+			}
+		}
+	}
+	// client deadlines at the digit-count boundaries of every timeout unit
+	for _, p := range AllProtos {
+		for _, u := range []time.Duration{time.Nanosecond, time.Microsecond, time.Millisecond, time.Second, time.Minute} {
+			for _, d := range []time.Duration{99999999 * u, 100000000 * u, 100000000*u + u/2, 100000001 * u, 999999999 * u} {
+				if d <= 0 || d/u < 99999999 {
+					continue // overflow
+				}
+				out = append(out, c05OutCase{Cfg: Cfg{Proto: p, Comp: CompNone, Kind: KUnary, HTTP: 2}, Sizes: []int{20}, ReqSizes: []int{15}, Deadline: d})
 			}
 		}
 	}
